@@ -240,7 +240,7 @@ pub fn run(reg: &[Box<dyn TypeOps>], defaults: &[Option<&'static str>], cfg: &Cf
             // pushes, pops, truncations, item edits on the containers (operations that cannot panic). A block of its own: what each
             // message must contain comes from the abstract machine of the operation suite (a `Vec` of items), run next to the same
             // operations on a scratch buffer of the send buffer's size
-            let editable = matches!(sh, Shape::Vec(..) | Shape::Str(..) | Shape::Flex(..) | Shape::UStruct(..));
+            let editable = matches!(sh, Shape::Vec(..) | Shape::Str(..) | Shape::Flex(..) | Shape::UStruct(..) | Shape::UEnum(..));
             if editable && rng.chance(2, 3) {
                 let cap = 2 * max.max(t.min_size());
                 let base = { let p = big.as_ptr() as usize; (16 - p % 16) % 16 };
